@@ -5,7 +5,8 @@ package kcp
 // vector of length L over {deliver, drop, duplicate, delay by 30 ms so that later datagrams
 // overtake it} applied cyclically to the datagrams of both directions (quick L=5: 1024 vectors,
 // thorough L=7: 16384) - in stream mode and message mode, with write sizes from 1 byte to
-// several MSS and a small window, under a virtual clock (refTime is moved, nothing sleeps).
+// several MSS and a small window, under a virtual clock (refTime is moved, nothing sleeps); the
+// message-mode runs start their sequence numbers just below 2^32.
 // Checked at every step: what the reader has received is exactly a prefix of what the writer
 // has been accepted to send (stream mode: bytes; message mode: whole messages with their
 // boundaries). Runs whose vector drops at most one datagram per cycle must also complete
@@ -77,6 +78,10 @@ func verifStreamRun(fates []int, stream bool) error {
 		k.SetMtu(200)
 		if stream {
 			k.stream = 1
+		} else {
+			// the message-mode runs start just below the 32-bit sequence-number wrap, so that the
+			// reordered and retransmitted segments of every fate vector straddle it
+			k.snd_una, k.snd_nxt, k.rcv_nxt = 1<<32-5, 1<<32-5, 1<<32-5
 		}
 	}
 	mss := int(a.mss)
